@@ -391,3 +391,173 @@ def g_idle(rng):
         ops += [{"op": "shutdown", "ex": "e", "wait": False}, {"op": "join_mgr", "ex": "e"}]
     prog = {"threads": [ops], "end": "return"}
     return prog, {"gen": "g_idle", "kind": kind, "kw": kw, "ending": ending}
+
+
+# ---------------------------------------------------------------------------
+def g_kill(rng):
+    """C06: forced shutdown arriving in every pool state, with nested pools and subprocesses."""
+    kind = "reusable" if rng.random() < 0.5 else "plain"
+    mw = rng.randint(1, 3)
+    kw = {"max_workers": mw, "timeout": rng.choice([None, 10]) if kind == "plain" else 10}
+    ops = [{"op": "new", "ex": "e", "kind": kind, "kw": kw}]
+    n_pre = rng.randint(0, 4)
+    for _ in range(n_pre):
+        ops.append({"op": "submit", "ex": "e", "task": t_ok(rng)})
+    if n_pre and rng.random() < 0.5:
+        ops.append({"op": "wait", "futs": "all"})
+    depth = rng.choice([0, 0, 1, 1, 2])
+    n_long = rng.randint(1, mw + 3)
+    for i in range(n_long):
+        r = rng.random()
+        if depth >= 1 and r < 0.5:
+            sub = [{"k": "endless"}]
+            if depth >= 2 and rng.random() < 0.6:
+                sub = [{"k": "nested", "kind": "reusable", "kw": {"max_workers": 1, "timeout": 10}, "sub": [{"k": "endless"}, {"k": "spawn_subprocess", "hang": 120}], "then": "hang"}]
+            elif rng.random() < 0.5:
+                sub.append({"k": "spawn_subprocess", "hang": 120})
+            ops.append({"op": "submit", "ex": "e", "task": {"k": "nested", "kind": rng.choice(["reusable", "plain"]), "kw": {"max_workers": rng.randint(1, 2), "timeout": 10}, "sub": sub, "then": "hang"}})
+        elif r < 0.7:
+            ops.append({"op": "submit", "ex": "e", "task": {"k": "spawn_subprocess", "hang": 120}})
+        else:
+            ops.append({"op": "submit", "ex": "e", "task": {"k": "endless"}})
+    for _ in range(rng.randint(0, 2 * mw + 3)):
+        ops.append({"op": "submit", "ex": "e", "task": rng.choice([t_ok(rng), {"k": "endless"}])})
+    if rng.random() < 0.4:
+        ops.append({"op": "cancel", "fut": "__recent__"})
+    ops.append({"op": "sleep", "d": rng.choice([0.0, 0.02, 0.3, 0.8, 1.5])})
+    via = rng.choice(["shutdown", "factory"]) if kind == "reusable" else "shutdown"
+    threads = [ops]
+    barriers = {}
+    kill_op = ({"op": "shutdown", "ex": "e", "kill_workers": True, "forced": True} if via == "shutdown"
+               else {"op": "get_reusable", "ex": "e", "kw": {"max_workers": mw, "timeout": 5, "kill_workers": True}, "forced": True})
+    if rng.random() < 0.25:
+        # from a second thread while the first is still submitting
+        ops.insert(1, {"op": "barrier", "name": "b"})
+        threads.append([{"op": "barrier", "name": "b"}, {"op": "sleep", "d": rng.choice([0.3, 0.8])}, kill_op])
+        barriers = {"b": 2}
+        tail = [{"op": "ns", "grace": 3.0, "after_forced": True}, {"op": "wait", "futs": "all"}, {"op": "census"}]
+    else:
+        ops.append(kill_op)
+        tail = [{"op": "ns", "grace": 3.0, "after_forced": True}, {"op": "wait", "futs": "all"}, {"op": "census"}]
+    renumber_cancels(threads)
+    prog = {"threads": threads, "end": "return", "tail": tail}
+    if barriers:
+        prog["barriers"] = barriers
+    return prog, {"gen": "g_kill", "kind": kind, "kw": kw, "depth": depth, "via": via}
+
+
+def g_par(rng):
+    """C08: histories of submits, time-outs, respawns and resizes with saturating rendezvous batches."""
+    kind = "reusable" if rng.random() < 0.65 else "plain"
+    mw = rng.randint(1, 8)
+    tmo = rng.choice([None, 10, 0.05, 0.02]) if kind == "plain" else rng.choice([10, 0.05, 0.02])
+    kw = {"max_workers": mw, "timeout": tmo}
+    ops = [{"op": "new", "ex": "e", "kind": kind, "kw": kw}]
+    grp = 0
+    cur = mw
+    for step in range(rng.randint(2, 5)):
+        r = rng.random()
+        if r < 0.35:
+            for _ in range(rng.randint(1, 2 * cur + 2)):
+                ops.append({"op": "submit", "ex": "e", "task": t_sleep(rng, 0.01, 0.06)})
+        elif r < 0.55:
+            ops.append({"op": "sleep", "d": round(min(0.5, (tmo or 0.02) * rng.choice([1.5, 3])), 3)})
+        elif r < 0.8 and kind == "reusable":
+            cur = rng.randint(1, 8)
+            ops.append({"op": "get_reusable", "ex": "e", "kw": dict(kw, max_workers=cur)})
+        else:
+            for _ in range(rng.randint(1, cur)):
+                ops.append({"op": "submit", "ex": "e", "task": t_ok(rng)})
+        # saturating batch on a quiet executor
+        ops.append({"op": "wait", "futs": "all"})
+        grp += 1
+        for i in range(cur):
+            ops.append({"op": "submit", "ex": "e", "task": {"k": "rendezvous", "n": cur, "grp": "g%d" % grp, "dir": "$RES", "patience": 20.0, "hold": 0.05}})
+        for _ in range(rng.randint(0, 3)):
+            ops.append({"op": "submit", "ex": "e", "task": t_sleep(rng, 0.01, 0.03)})
+        ops.append({"op": "wait", "futs": "all"})
+    ops += [{"op": "quiesce", "ex": ["e"]}, {"op": "shutdown", "ex": "e", "wait": True}]
+    return {"threads": [ops], "end": "return"}, {"gen": "g_par", "kind": kind, "kw": kw}
+
+
+def g_factory(rng):
+    """C09: sequences of get_reusable_executor calls interleaved with crashes, shutdowns, time-outs."""
+    n = rng.randint(3, 12)
+    ops = []
+    cur = None
+    for i in range(n):
+        kw = {"max_workers": rng.randint(1, 4), "timeout": rng.choice([10, 10, 5, 0.1])}
+        r = rng.random()
+        if r < 0.35:
+            kw["reuse"] = rng.choice([True, False, "auto"])
+        if rng.random() < 0.15:
+            kw["kill_workers"] = True
+        if rng.random() < 0.2:
+            kw["initializer"] = {"token": "tok%d" % rng.randint(0, 3)}
+        if rng.random() < 0.15:
+            kw["env"] = {"LV_ENV_MARK": "m%d" % rng.randint(0, 2)}
+        if rng.random() < 0.12:
+            kw["context"] = rng.choice(["loky", "loky_init_main", "spawn"])
+        if cur is not None and rng.random() < 0.35:
+            # same arguments again (reuse expected) possibly with another size
+            kw = dict(cur, max_workers=rng.choice([cur["max_workers"], rng.randint(1, 4)]))
+            kw.pop("kill_workers", None)
+        ops.append({"op": "get_reusable", "ex": "e", "kw": kw, "factory": True})
+        cur = {k: v for k, v in kw.items() if k not in ("reuse", "kill_workers")}
+        ops.append({"op": "submit", "ex": "e", "task": {"k": "probe", "what": ["init", "env", "pid"]}})
+        for _ in range(rng.randint(0, 3)):
+            ops.append({"op": "submit", "ex": "e", "task": t_ok(rng)})
+        ops.append({"op": "wait", "futs": "all"})
+        r = rng.random()
+        if r < 0.2:
+            ops += [{"op": "submit", "ex": "e", "task": t_die(rng)}, {"op": "wait", "futs": "all"}, {"op": "sleep", "d": 0.05}]
+        elif r < 0.35:
+            w = rng.random() < 0.5
+            if not w:
+                ops.append({"op": "submit", "ex": "e", "task": t_sleep(rng, 0.1, 0.3)})
+            ops.append({"op": "shutdown", "ex": "e", "wait": w})
+        elif r < 0.5:
+            ops.append({"op": "sleep", "d": rng.choice([0.05, 0.3])})
+    ops += [{"op": "wait", "futs": "all"}]
+    return {"threads": [ops], "end": "return"}, {"gen": "g_factory", "threads": 1}
+
+
+def g_factory_mt(rng):
+    """C09 multi-thread: racing callers varying only max_workers."""
+    nt = rng.randint(2, 6)
+    tmo = rng.choice([10, 0.2])
+    threads = []
+    for ti in range(nt):
+        ops = [{"op": "barrier", "name": "s"}]
+        for i in range(rng.randint(2, 6)):
+            ops.append({"op": "get_reusable", "ex": "e%d" % ti, "kw": {"max_workers": rng.randint(1, 4), "timeout": tmo}})
+            for _ in range(rng.randint(1, 3)):
+                ops.append({"op": "submit", "ex": "e%d" % ti, "task": t_ok(rng) if rng.random() < 0.7 else t_sleep(rng, 0.005, 0.03)})
+            if rng.random() < 0.5:
+                ops.append({"op": "wait", "futs": "all"})
+        threads.append(ops)
+    return {"threads": threads, "barriers": {"s": nt}, "end": "return", "tail": [{"op": "wait", "futs": "all"}]}, {"gen": "g_factory_mt", "threads": nt, "kw": {"timeout": tmo}}
+
+
+def g_resize(rng):
+    """C10: (old,new) pairs with in-flight work and idle time-outs."""
+    tmo = rng.choice([None, None, 0.3, 0.05, 0.01])
+    old = rng.randint(1, 6)
+    kw = {"max_workers": old, "timeout": tmo if tmo is not None else 100}
+    ops = [{"op": "new", "ex": "e", "kind": "reusable", "kw": kw}]
+    ops += [{"op": "submit", "ex": "e", "task": t_ok(rng)}, {"op": "wait", "futs": "all"}]
+    cur = old
+    for step in range(rng.randint(1, 4)):
+        new = rng.randint(1, 6)
+        inflight = rng.choice([0, 0, 1, 2, 3]) * cur
+        for _ in range(inflight):
+            ops.append({"op": "submit", "ex": "e", "task": t_sleep(rng, 0.01, 0.08) if rng.random() < 0.7 else t_ok(rng)})
+        if rng.random() < 0.3:
+            ops.append({"op": "sleep", "d": rng.choice([0.0, 0.01, 0.06])})
+        ops.append({"op": "get_reusable", "ex": "e", "kw": dict(kw, max_workers=new), "resize": [cur, new]})
+        cur = new
+        if rng.random() < 0.6:
+            ops.append({"op": "submit", "ex": "e", "task": t_ok(rng)})
+            ops.append({"op": "wait", "futs": "all"})
+    ops += [{"op": "wait", "futs": "all"}, {"op": "quiesce", "ex": ["e"]}]
+    return {"threads": [ops], "end": "return"}, {"gen": "g_resize", "kw": kw, "old": old}
